@@ -29,3 +29,34 @@ package trie
 //@ func (*ValidChars).IsValidChar
 //@   requires v != nil
 //@   ensures result == (v.table[c] > 0 || c == v.zeroChar)
+
+// C11/C12 (rank/select index of the succinct trie): the i-th one is searched starting from the word that
+// the select index records for the i/64-th group of ones, after subtracting the rank of that word.
+//@ func selectIthOne
+//@   requires i >= 0 && selects != nil && ranks != nil
+//@   anchorsonly
+//@   dyncalls noeffect
+//@   modifies *
+//@   at call Get#1 assert a0 == selects && a1 == i / 64
+//@   at call Get#2 assert a0 == ranks && a1 == base / 64
+
+// the number of zeros before bit i is i minus the rank recorded for i's word minus the ones below i in it
+//@ func countZeros
+//@   requires i >= 0 && ranks != nil
+//@   anchorsonly
+//@   dyncalls noeffect
+//@   modifies *
+//@   at call Get#1 assert a0 == ranks && a1 == i / 64
+//@   at call bits.OnesCount64#1 assert wordIdx == i / 64 && bitIdx == i % 64
+
+// C12 ("sets with identical prefixes ..."): the keys that are sorted and built into the trie are the
+// de-duplicated keys, not the list as given (a duplicate key would otherwise produce a second leaf).
+//@ func NewTrie
+//@   anchorsonly
+//@   nonilcheck
+//@   dyncalls noeffect
+//@   modifies *
+//@   ghostfn ddBase() int
+//@   ghostfn ddLen() int
+//@   at call Deduplicate#1 assume-after result.$base == ddBase() && len(result) == ddLen()
+//@   at call sort.Strings#1 assert calls("Deduplicate") == 1 && a0.$base == ddBase() && len(a0) == ddLen()
